@@ -245,6 +245,139 @@ fn lunar_month_weeks(k: usize, cfg: &Cfg, log: &mut Log) {
   }
 }
 
+/// histories: a single-thread sequence of 6..16 week questions on related months (the same month again, the
+/// neighbouring months, the same month in a year that differs by a cycle / power of two or ten / digit, the month
+/// half a year away; civil and lunar mixed, week start kept or changed)
+fn history(i: usize, cfg: &Cfg, log: &mut Log) {
+  let c = cal();
+  let seq = lunar_seq();
+  let nm = c.month_first.len();
+  let mut rng = Rng::new(mix(cfg.seed, i as u64 ^ 0x7C14));
+  let len = rng.range(6, 16);
+  let mut mi = 1 + rng.below(nm - 3);
+  let mut s = rng.range(0, 6);
+  let key = format!("seq{}_{:04}-{:02}", i, mi / 12 + 1, mi % 12 + 1);
+  let mut trace: Vec<String> = vec![];
+  let r = guard(|| {
+    let mut out: Vec<(String, String)> = vec![];
+    let mut judged = 0u64;
+    for step in 0..len {
+      let y = (mi / 12) as i64 + 1;
+      let m = (mi % 12) as i64 + 1;
+      let first = c.month_first[mi];
+      let last = c.month_first[mi + 1] - 1;
+      let b0 = block_start(first, s);
+      let count = (block_start(last, s) - b0) / 7 + 1;
+      let name = format!("{:04}-{:02}/{}", y, m, s);
+      match rng.below(8) {
+        0 | 1 => {
+          trace.push(format!("count({})", name));
+          let got = SolarMonth::from_ym(y as isize, m as usize).get_week_count(s as usize) as i64;
+          judged += 1;
+          if got != count {
+            out.push((format!("step {} {}: {} weeks", step, trace.join(" "), got), format!("{} weeks", count)));
+          }
+        }
+        2 => {
+          trace.push(format!("weeks({})", name));
+          let got: Vec<Option<i64>> = SolarMonth::from_ym(y as isize, m as usize).get_weeks(s as usize).iter().map(|w| dn_of(&w.get_first_day())).collect();
+          let want: Vec<Option<i64>> = (0..count).map(|k| Some(b0 + 7 * k)).collect();
+          judged += 1;
+          if got != want {
+            out.push((format!("step {} {}: first days {:?}", step, trace.join(" "), got), format!("{:?}", want)));
+          }
+        }
+        3 | 4 => {
+          let n = rng.range(first, last);
+          trace.push(format!("week-of({}, {})", cal::fmt_dn(n), s));
+          let w = sd_of_dn(n).get_solar_week(s as usize);
+          let got = (dn_of(&w.get_first_day()), w.get_index() as i64);
+          let want = (Some(block_start(n, s)), (block_start(n, s) - b0) / 7);
+          judged += 1;
+          if got != want {
+            out.push((format!("step {} {}: first day {:?} index {}", step, trace.join(" "), got.0.map(cal::fmt_dn), got.1), format!("first day {} index {}", cal::fmt_dn(block_start(n, s)), want.1)));
+          }
+        }
+        5 => {
+          let idx = rng.range(0, count - 1);
+          let n = *rng.pick(&[1i64, -1, 2, -2, 4, -4, 5, -5, 9, -9, 26, -26, 52, -52]);
+          let t = b0 + 7 * (idx + n);
+          if t >= FIRST + 40 && t + 6 <= LAST - 40 {
+            trace.push(format!("next({}#{}, {:+})", name, idx, n));
+            let got = dn_of(&SolarWeek::from_ym(y as isize, m as usize, idx as usize, s as usize).next(n as isize).get_first_day());
+            judged += 1;
+            if got != Some(t) {
+              out.push((format!("step {} {}: {:?}", step, trace.join(" "), got.map(cal::fmt_dn)), cal::fmt_dn(t)));
+            }
+          }
+        }
+        6 => {
+          let idx = rng.range(0, count - 1);
+          let jan1 = c.year_first(y);
+          let want = (b0 + 7 * idx - block_start(jan1, s)) / 7;
+          if want >= 0 && block_start(jan1, s) >= FIRST {
+            trace.push(format!("index-in-year({}#{})", name, idx));
+            let got = SolarWeek::from_ym(y as isize, m as usize, idx as usize, s as usize).get_index_in_year() as i64;
+            judged += 1;
+            if got != want {
+              out.push((format!("step {} {}: {}", step, trace.join(" "), got), format!("{}", want)));
+            }
+          }
+        }
+        _ => {
+          // the lunar month that contains the 15th of this civil month
+          let k = seq.months.partition_point(|lm| lm.first <= first + 14);
+          if k > 0 {
+            let lm = seq.months[k - 1];
+            let (lf, ll) = (lm.first, lm.first + lm.days - 1);
+            if lm.y >= 28 && !(234..=242).contains(&lm.y) && lf > FIRST + 500 && ll < LAST - 500 {
+              trace.push(format!("lunar-count({}/{})", fmt_lym(lm.y, lm.m), s));
+              let lmo = LunarMonth::from_ym(lm.y as isize, lm.m as isize);
+              let lb0 = block_start(lf, s);
+              let lcount = (block_start(ll, s) - lb0) / 7 + 1;
+              let got = (lmo.get_week_count(s as usize) as i64, lmo.get_weeks(s as usize).iter().map(|w| dn_of(&w.get_first_day().get_solar_day())).collect::<Vec<_>>());
+              let want = (lcount, (0..lcount).map(|j| Some(lb0 + 7 * j)).collect::<Vec<_>>());
+              judged += 1;
+              if got != want {
+                out.push((format!("step {} {}: {:?}", step, trace.join(" "), got), format!("{:?}", want)));
+              }
+            }
+          }
+        }
+      }
+      if !out.is_empty() {
+        break;
+      }
+      // the next month and week start
+      if rng.chance(1, 3) {
+        s = rng.range(0, 6);
+      }
+      let q: i64 = match rng.below(10) {
+        0 | 1 => mi as i64,
+        2 => mi as i64 + 1,
+        3 => mi as i64 - 1,
+        4 => mi as i64 + *rng.pick(&[6i64, -6, 12, -12]),
+        5 => 1 + rng.below(nm - 3) as i64,
+        _ => (crate::history::related_year(&mut rng, y, 1, 9999) - 1) * 12 + m - 1,
+      };
+      mi = q.clamp(1, nm as i64 - 3) as usize;
+    }
+    (out, judged)
+  });
+  log.ev(1);
+  log.nt(1);
+  match r {
+    Ok((v, judged)) => {
+      log.count("history.sequences", 1);
+      log.count("history.answers_judged", judged);
+      if let Some((o, e)) = v.into_iter().next() {
+        log.violate(format!("C14/history/{}", key), "a sequence of week questions on related months on one thread", key.clone(), o, e);
+      }
+    }
+    Err(msg) => log.violate(format!("C14/panic-history/{}", key), "a sequence of week questions on related months on one thread", key.clone(), format!("panic: {}", msg), "no panic".into()),
+  }
+}
+
 pub fn run(cfg: &Cfg) -> (Log, Meta) {
   crate::util::set_thread_cap(12);
   let mut log = Log::new();
@@ -281,6 +414,9 @@ pub fn run(cfg: &Cfg) -> (Log, Meta) {
     Tier::Thorough => (0..seq.months.len()).filter(|&i| seq.months[i].y % 10 == (cfg.seed % 10) as i64).collect(),
   };
   log.merge(par_range(lunar_idx.len(), 4, |i, l| lunar_month_weeks(lunar_idx[i], cfg, l)));
+  let nh = cfg.tier.pick(30_000usize, 500_000usize);
+  log.merge(par_range(nh, 100, |i, l| history(i, cfg, l)));
+  log.floor("history.answers_judged", cfg.tier.pick(200_000, 3_500_000));
   log.floor("solar.month_start_combinations", 800_000);
   log.floor("solar.date_to_week_lookups", cfg.tier.pick(10_000_000, 25_000_000));
   log.floor("solar.edge_months", 10_000);
@@ -289,11 +425,12 @@ pub fn run(cfg: &Cfg) -> (Log, Meta) {
   log.floor("lunar.leap_months", cfg.tier.pick(200, 300));
   let meta = Meta {
     rule: format!(
-      "every civil month 0001-02..9999-11 x 7 week starts x every index (count, list, first day, start weekday, 7 consecutive days, identity, coverage of the month, refusal of index = count / index 6 / start 7) and every date x {} starts for date->week; stepping by {} step counts in -60..60 and index-in-year from every week of {} months (one seeded start each); lunar months: {} months x 7 starts (count, list, first day, weekday, 7 days, refusal, stepping by 18 step counts for one start). Oracle: weekday (N+1) mod 7 and 7-day blocks intersecting the month. Non-trivial = months starting on Sunday, 28-day months, October 1582, leap lunar months, distinct (month, start, index) step origins.",
+      "every civil month 0001-02..9999-11 x 7 week starts x every index (count, list, first day, start weekday, 7 consecutive days, identity, coverage of the month, refusal of index = count / index 6 / start 7) and every date x {} starts for date->week; stepping by {} step counts in -60..60 and index-in-year from every week of {} months (one seeded start each); lunar months: {} months x 7 starts (count, list, first day, weekday, 7 days, refusal, stepping by 18 step counts for one start); histories: {} seeded single-thread sequences of 6..16 questions (week count, week list, week of a date, next(n), index in year, week count and list of the lunar month around the 15th) on months related to the previous one (same, +-1, +-6, +-12, same month in a year differing by a cycle, a power of two or ten or a digit), week start kept or redrawn. Oracle: weekday (N+1) mod 7 and 7-day blocks intersecting the month. Non-trivial = months starting on Sunday, 28-day months, October 1582, leap lunar months, distinct (month, start, index) step origins.",
       cfg.tier.pick(3, 7),
       STEP_SET.len(),
       step_months.len(),
-      lunar_idx.len()
+      lunar_idx.len(),
+      nh
     ),
     assumptions: vec!["lunar months of AD 0-27 and 234-242 are not drawn: their labelling is a listed finding of C02/C03 and lunar weeks inherit it".into(), "weeks are identified by the day number of their first day; first and last month of the range are excluded because their weeks reach outside 0001..9999".into()],
     exhaustive: false,
